@@ -118,7 +118,7 @@ pub fn build(abi: &Abi, rng: &mut Rng, opname: &str, bits_on: &[String], want_er
     let mut names: Vec<Vec<u8>> = Vec::new();
     let mut payload: Vec<u8> = Vec::new();
     let mut tailbytes: Vec<u8> = Vec::new();
-    let mut list: Vec<Value> = Vec::new();
+    let mut list: Value = json!([]);
     let mut listn = 0u64;
     match tail.as_str() {
         "names1" => names.push(rname(rng, 4000)),
@@ -141,18 +141,26 @@ pub fn build(abi: &Abi, rng: &mut Rng, opname: &str, bits_on: &[String], want_er
         }
         t if t.starts_with("list:") => {
             let st = &t[5..];
-            listn = *rng.pick(&[0u64, 1, 2, 3, 17, 200]);
+            // the largest list a maximum-size request can carry, and one less (1 in 5 requests)
+            let maxn: u64 = if opname == "BATCH_FORGET" { ((1 << 20) + 0x1000 - 48) / 16 } else { (1 << 20) / 16 };
+            listn = *rng.pick(&[0u64, 1, 1, 2, 2, 3, 3, 17, 64, 65, 200, 200]);
+            if rng.chance(1, 5) {
+                listn = if rng.chance(3, 4) { maxn } else { maxn - 1 };
+            }
+            let fls = abi.flat_fields(st);
+            let mut rows: Vec<(u64, u64)> = Vec::with_capacity(listn as usize);
             for _ in 0..listn {
                 let mut v = Vals::new();
                 let mut row = Vec::new();
-                for fl in abi.flat_fields(st) {
+                for fl in &fls {
                     let x = boundary(rng, fl.w);
                     v.insert(fl.name.clone(), x);
-                    row.push(json!(x.to_string()));
+                    row.push(x);
                 }
                 tailbytes.extend(abi.encode(st, &v));
-                list.push(Value::Array(row));
+                rows.push((row[0], row[1]));
             }
+            list = vharness::scripted::pairs_json(&rows);
         }
         _ => {}
     }
@@ -162,6 +170,34 @@ pub fn build(abi: &Abi, rng: &mut Rng, opname: &str, bits_on: &[String], want_er
     }
     if tail == "payload" || tail == "name+payload" {
         tailbytes.extend_from_slice(&payload);
+    }
+    // READDIR / READDIRPLUS: the entries the file system will offer are drawn first, so that the buffer size can be put on
+    // and next to the packing boundaries (end of an entry with and without its padding)
+    let mut pre_dirents: Option<Vec<OwnedDirent>> = None;
+    let mut dirent_sizes: Vec<u64> = Vec::new();
+    if (opname == "READDIR" || opname == "READDIRPLUS") && !want_err {
+        let n = rng.range(0, 12) as usize;
+        let mut v = Vec::new();
+        let mut cum = 0u64;
+        let extra = if opname == "READDIRPLUS" { abi.size("fuse_entry_out") as u64 } else { 0 };
+        let dsz = abi.size("fuse_dirent") as u64;
+        for i in 0..n {
+            let name = rname(rng, 300);
+            let unpadded = cum + extra + dsz + name.len() as u64;
+            cum += extra + ((dsz + name.len() as u64 + 7) & !7);
+            for d in [-1i64, 0, 1] {
+                dirent_sizes.push((unpadded as i64 + d).max(0) as u64);
+                dirent_sizes.push((cum as i64 + d).max(0) as u64);
+            }
+            v.push(OwnedDirent {
+                ino: boundary(rng, 8),
+                offset: boundary(rng, 8).max(1) ^ (i as u64),
+                type_: boundary(rng, 4) as u32,
+                name,
+                entry: rentry(rng),
+            });
+        }
+        pre_dirents = Some(v);
     }
     // body fields
     if !body.is_empty() {
@@ -188,6 +224,9 @@ pub fn build(abi: &Abi, rng: &mut Rng, opname: &str, bits_on: &[String], want_er
                 ("BATCH_FORGET", "count") | ("REMOVEMAPPING", "count") => v = listn,
                 ("READ", "size") | ("READDIR", "size") | ("READDIRPLUS", "size") => {
                     v = *rng.pick(&[0u64, 1, 16, 24, 31, 32, 33, 100, 152, 160, 161, 1000, 4096, 8192, 65536]);
+                    if !dirent_sizes.is_empty() && rng.chance(1, 2) {
+                        v = *rng.pick(&dirent_sizes);
+                    }
                     cap_hint = v as usize;
                     num.insert("size".into(), json!(v));
                 }
@@ -295,20 +334,7 @@ pub fn build(abi: &Abi, rng: &mut Rng, opname: &str, bits_on: &[String], want_er
                 rng.fill(&mut b);
                 Ret::Ioctl { result: boundary(rng, 4) as i32, data: b }
             }
-            "dirents" => {
-                let n = rng.range(0, 12) as usize;
-                let mut v = Vec::new();
-                for i in 0..n {
-                    v.push(OwnedDirent {
-                        ino: boundary(rng, 8),
-                        offset: boundary(rng, 8).max(1) ^ (i as u64),
-                        type_: boundary(rng, 4) as u32,
-                        name: rname(rng, 300),
-                        entry: rentry(rng),
-                    });
-                }
-                Ret::Dirents(v)
-            }
+            "dirents" => Ret::Dirents(pre_dirents.take().unwrap_or_default()),
             _ => Ret::Unit,
         }
     };
